@@ -6,6 +6,9 @@ use crate::macsuites::*;
 use crate::util::*;
 
 pub fn eval(op: &str) -> String {
+    if let Some(r) = crate::adevgen::eval_dev_any(op) {
+        return r;
+    }
     eval_c07(op)
 }
 
@@ -133,5 +136,7 @@ pub fn run(tier: &str, seed: u64, dir: &str) {
             sink.case(&line, &eval(&line), "sticky-answer-vs-forged-frame", true);
         }
     }
+    // device level: both front-ends with the scripted radio (see adevgen::add_dev_classes)
+    crate::adevgen::add_dev_classes("C07", &mut rng, &mut sink, thorough, eval);
     sink.finish(dir, "twin runs: each history is executed twice on the real Mac, once with and once without the frames marked `*` (frames the REFERENCE view rejects: unparseable bytes, data frames whose MIC verifies under no counter incl. bit-flips and other-session frames, wrong-key JoinAccepts; oversized ones are left unstarred); every unstarred event must produce identical output (uplink bytes as decoded, TxConfig, windows, responses, snapshots) and every starred one `NoUpdate`. Non-trivial = histories containing at least one starred frame.", false, serde_json::json!({}));
 }
